@@ -407,9 +407,19 @@ func repairScenario(r *rand.Rand) []dbx.Op {
 		ops = append(ops, dbx.Op{Op: "tick"})
 	}
 	ops = append(ops, dbx.Op{Op: "sched", Mode: "maintain"})
-	if r.Intn(2) == 0 {
+	switch r.Intn(3) {
+	case 0:
 		for i := 0; i < 1+r.Intn(13); i++ {
 			ops = append(ops, dbx.Op{Op: "tick"})
+		}
+		ops = append(ops, dbx.Op{Op: "sched", Mode: "maintain"})
+	case 1:
+		// the next round at the same logical time (the leader's tick proposals failed in between), after silent members
+		// have come back: what it decides is justified by the views as they are now
+		for _, a := range addrs {
+			if r.Intn(3) != 0 {
+				ops = append(ops, hostReport(a, true, map[int]bool{0: true, 1: true}, r.Intn(2) == 0))
+			}
 		}
 		ops = append(ops, dbx.Op{Op: "sched", Mode: "maintain"})
 	}
